@@ -783,6 +783,9 @@ func init() {
 					rs = append(rs, HRun{Pkg: "./shovel", Fn: "ZZ_C20_Load", Params: []int{m[0], m[1], sm}, MaxPaths: 400000})
 				}
 			}
+			// names containing separators: distinct (source, integration) pairs that agree once joined with '-'
+			rs = append(rs, HRun{Pkg: "./shovel", Fn: "ZZ_C20_Load", Params: []int{2, 0, 11}, MaxPaths: 400000, Label: "separator-names"},
+				HRun{Pkg: "./shovel", Fn: "ZZ_C20_Load", Params: []int{1, 1, 10}, MaxPaths: 400000, Label: "separator-names"})
 			// schedule half: Run / Restart / runTask under the engine's scheduler
 			rs = append(rs, HRun{Pkg: "./shovel", Fn: "ZZ_C20_Restart", Params: []int{0, 1, 60}, MaxPaths: 400000, DeepenParam: 2, DeepenStep: 15})
 			if tier == "thorough" {
@@ -917,6 +920,8 @@ func init() {
 				rs = append(rs, HRun{Pkg: "./jrpc2", Fn: "ZZ_C18_SharedFail", Params: []int{ab[0], ab[1]}, MaxPaths: 200000})
 			}
 			rs = append(rs, HRun{Pkg: "./jrpc2", Fn: "ZZ_C18_Head", Params: []int{0}}, HRun{Pkg: "./jrpc2", Fn: "ZZ_C18_Head", Params: []int{1}})
+			// two tasks consume one shared block whose transaction hash memo is empty / filled
+			rs = append(rs, HRun{Pkg: "./jrpc2", Fn: "ZZ_C18_TxHash", Params: []int{1}}, HRun{Pkg: "./jrpc2", Fn: "ZZ_C18_TxHash", Params: []int{0}})
 			// every scenario also with the goroutines recorded in reverse spawn order
 			n := len(rs)
 			for i := 0; i < n; i++ {
